@@ -177,6 +177,7 @@ pub fn run(spec: RunSpec) -> ! {
         block_counts: [0; MAX_MUT],
         fork_epoch: 0,
         alloc_slow_iters: BTreeMap::new(),
+        acquire_fails: BTreeMap::new(),
         used_after_gc: Vec::new(),
         ephemerons: Vec::new(),
         satb_keep: BTreeSet::new(),
@@ -184,6 +185,7 @@ pub fn run(spec: RunSpec) -> ! {
         satb_new: BTreeSet::new(),
         immortal_dead: BTreeSet::new(),
         oom_events: Vec::new(),
+        hist: Default::default(),
         blocked_for_gc: [false; MAX_MUT],
         gc_requests: BTreeMap::new(),
         recent: VecDeque::new(),
@@ -340,7 +342,8 @@ fn do_alloc(mid: usize, req: AllocReq) -> Option<(u64, usize)> {
     // `unreachable!("GC triggered in nogc")` by design, so such a program is illegal.
     let skip = with_world(|w| {
         !w.plan.collects
-            && req.opts.map(|o| o.at_safepoint && !o.allow_overcommit).unwrap_or(true)
+            // (every mutator allocation polls -- whatever its options -- and a poll on a full heap
+            // triggers a GC)
             && size < w.spec.cfg.heap_bytes
             && (w.alloc_bytes as usize + size + (64 << 10)) * 3 > w.spec.cfg.heap_bytes
     });
@@ -361,6 +364,7 @@ fn do_alloc(mid: usize, req: AllocReq) -> Option<(u64, usize)> {
     let my_tid = simrt::current_tid();
     with_world(|w| {
         w.alloc_slow_iters.insert(my_tid, 0);
+        w.acquire_fails.insert(my_tid, (0, 0));
     });
     let addr = match req.opts {
         None => mm::alloc(m, size, align, offset, semantics),
